@@ -279,11 +279,19 @@ class AsyncTunnelHTTPConnection(AsyncConnectionInterface):
                 connect_headers = merge_headers(
                     [(b"Host", target), (b"Accept", b"*/*")], self._proxy_headers
                 )
+                # The "target" extension says what the request that is to be
+                # tunnelled puts on its request line. It is not meant for the
+                # CONNECT request, whose target is the tunnel's end point.
+                connect_extensions = {
+                    key: value
+                    for key, value in request.extensions.items()
+                    if key != "target"
+                }
                 connect_request = Request(
                     method=b"CONNECT",
                     url=connect_url,
                     headers=connect_headers,
-                    extensions=request.extensions,
+                    extensions=connect_extensions,
                 )
                 try:
                     connect_response = await self._connection.handle_async_request(
